@@ -397,3 +397,130 @@ MODELS2 = [
     (P(r'^<Vec<.*> as PartialEq>::eq$|^<\[.*\] as PartialEq>::eq$'), m_vec_eq),
     (P(r'^<Vec<.*> as PartialEq>::ne$'), m_vec_ne),
 ]
+
+
+# --------------------------------------------------------------------------- petgraph StableGraph / sets (concrete shape)
+def _graph_ref(st, r):
+    while isinstance(st.load(r), RefV):
+        r = st.load(r)
+    g = st.load(r)
+    if not (isinstance(g, TupV) and g.tag == 'StableGraph'):
+        raise Inconclusive('expected a StableGraph, got %r' % (g,))
+    return r, g
+
+
+def _node_id(v):
+    if isinstance(v, Opaque) and v.tag in ('node', 'edge'):
+        return v.p[0]
+    raise Inconclusive('expected a node/edge index, got %r' % (v,))
+
+
+def m_graph_new(ex, st, fr, callee, a, depth):
+    """petgraph StableGraph with a CONCRETE shape: node weights, edges as (source, target, weight) in insertion order"""
+    return TupV((ListV(()), ListV(())), ('nodes', 'edges'), 'StableGraph')
+
+
+def m_graph_add_node(ex, st, fr, callee, a, depth):
+    r, g = _graph_ref(st, a[0])
+    nodes = g.get('nodes').items + (a[1],)
+    st.store(r, TupV((ListV(nodes), g.get('edges')), ('nodes', 'edges'), 'StableGraph'))
+    return Opaque('node', len(nodes) - 1)
+
+
+def m_graph_add_edge(ex, st, fr, callee, a, depth):
+    r, g = _graph_ref(st, a[0])
+    e = TupV((BV(_node_id(a[1]), 32), BV(_node_id(a[2]), 32), a[3]))
+    edges = g.get('edges').items + (e,)
+    st.store(r, TupV((g.get('nodes'), ListV(edges)), ('nodes', 'edges'), 'StableGraph'))
+    return Opaque('edge', len(edges) - 1)
+
+
+def m_graph_neighbors(ex, st, fr, callee, a, depth):
+    """neighbors(a): targets of a's outgoing edges, most recently added edge first (petgraph's adjacency list order)"""
+    r, g = _graph_ref(st, a[0])
+    n = _node_id(a[1])
+    outs = [Opaque('node', concrete(e.fields[1])) for e in g.get('edges').items if concrete(e.fields[0]) == n]
+    return IterV('list', items=tuple(reversed(outs)))
+
+
+def m_graph_find_edge(ex, st, fr, callee, a, depth):
+    r, g = _graph_ref(st, a[0])
+    s_, t_ = _node_id(a[1]), _node_id(a[2])
+    hits = [i for i, e in enumerate(g.get('edges').items) if concrete(e.fields[0]) == s_ and concrete(e.fields[1]) == t_]
+    return some(Opaque('edge', hits[-1])) if hits else NONE
+
+
+def m_graph_edge_weight(ex, st, fr, callee, a, depth):
+    r, g = _graph_ref(st, a[0])
+    i = _node_id(a[1])
+    if i >= len(g.get('edges').items):
+        return NONE
+    return some(RefV(r.addr, r.path + (1, i, 2)))
+
+
+def m_graph_update_edge(ex, st, fr, callee, a, depth):
+    r, g = _graph_ref(st, a[0])
+    s_, t_ = _node_id(a[1]), _node_id(a[2])
+    edges = list(g.get('edges').items)
+    hits = [i for i, e in enumerate(edges) if concrete(e.fields[0]) == s_ and concrete(e.fields[1]) == t_]
+    if hits:
+        i = hits[-1]
+        edges[i] = TupV((edges[i].fields[0], edges[i].fields[1], a[3]))
+        st.store(r, TupV((g.get('nodes'), ListV(edges)), ('nodes', 'edges'), 'StableGraph'))
+        return Opaque('edge', i)
+    return m_graph_add_edge(ex, st, fr, callee, a, depth)
+
+
+def m_node_index(ex, st, fr, callee, a, depth):
+    return BV(_node_id(deref(st, a[0]) if isinstance(a[0], RefV) else a[0]), 64)
+
+
+def m_set_new(ex, st, fr, callee, a, depth):
+    return TupV((ListV(()),), ('items',), 'Set')
+
+
+def m_set_insert(ex, st, fr, callee, a, depth):
+    """HashSet / BTreeSet::insert on a set kept as a duplicate-free list (forks on equality with existing elements)"""
+    r = a[0]
+    while isinstance(st.load(r), RefV):
+        r = st.load(r)
+    sv = st.load(r)
+    if not (isinstance(sv, TupV) and sv.tag == 'Set'):
+        raise Inconclusive('expected a set, got %r' % (sv,))
+    items = list(sv.get('items').items)
+    outs = []
+    work = [(st, 0)]
+    while work:
+        s, i = work.pop()
+        if i == len(items):
+            s.store(r, TupV((ListV(items + [a[1]]),), ('items',), 'Set'))
+            outs.append((s, z3.BoolVal(True)))
+            continue
+        for s2, same in ex.branch(s, deep_eq(ex, s, items[i], a[1])):
+            if same:
+                outs.append((s2, z3.BoolVal(False)))
+            else:
+                work.append((s2, i + 1))
+    return outs
+
+
+def m_min_max(ex, st, fr, callee, a, depth):
+    x, y = a[0], a[1]
+    if not (is_z3(x) and is_z3(y)):
+        raise Inconclusive('min/max of %r' % (x,))
+    return z3.simplify(z3.If(z3.ULE(x, y), x, y) if '::min::<' in callee else z3.If(z3.UGE(x, y), x, y))
+
+
+MODELS2 += [
+    (P(r'^StableGraph::<.*>::new$'), m_graph_new),
+    (P(r'^StableGraph::<.*>::add_node$'), m_graph_add_node),
+    (P(r'^StableGraph::<.*>::add_edge$'), m_graph_add_edge),
+    (P(r'^StableGraph::<.*>::neighbors$'), m_graph_neighbors),
+    (P(r'^StableGraph::<.*>::find_edge$'), m_graph_find_edge),
+    (P(r'^StableGraph::<.*>::edge_weight$'), m_graph_edge_weight),
+    (P(r'^StableGraph::<.*>::update_edge$'), m_graph_update_edge),
+    (P(r'^NodeIndex::index$|^NodeIndex::<.*>::index$'), m_node_index),
+    (P(r'^(HashSet|BTreeSet)::<.*>::new$'), m_set_new),
+    (P(r'^(HashSet|BTreeSet)::<.*>::insert$'), m_set_insert),
+    (P(r'^std::cmp::(min|max)::<(u8|u16|u32|u64|usize)>$'), m_min_max),
+]
